@@ -611,10 +611,17 @@ def _gen(ctx: Ctx):
     r.shuffle(ts)
     for i, sh in enumerate(ts[:ctx.budget(12, len(ts))] * ctx.budget(1, 10)):
         tilt = [0.0, 0.0] if i % 3 == 0 else [round(r.uniform(-8, 8), 2), round(r.uniform(-8, 8), 2) if i % 3 == 2 else 0.0]
+        samp = [round(r.uniform(0.2, 0.6), 3), round(r.uniform(0.2, 0.6), 3)]
+        energy = r.choice([60e3, 80e3, 200e3, 300e3])
+        if i % 4 == 3:
+            # low energy on a fine grid: the Fourier grid reaches beyond 1/lambda ("for all ... energies"):
+            # the kernel must stay unit-modulus there too (no evanescent cut-off hiding in the propagator)
+            samp = [round(r.uniform(0.04, 0.12), 3), round(r.uniform(0.04, 0.12), 3)]
+            energy = r.choice([500.0, 2e3, 5e3])
         out.append({"kind": "propagate", "shape": list(sh), "seed": seed(),
                     "thick": [round(r.uniform(0.5, 20.0), 2), round(r.uniform(0.5, 20.0), 2)],
-                    "sampling": [round(r.uniform(0.2, 0.6), 3), round(r.uniform(0.2, 0.6), 3)],
-                    "energy": r.choice([60e3, 80e3, 200e3, 300e3]), "tilt": tilt,
+                    "sampling": samp,
+                    "energy": energy, "tilt": tilt,
                     "coq": sh[0] * sh[1] <= 80 and i < ctx.budget(6, 40)})
     # ---- gather / scatter
     r.shuffle(ts)
